@@ -334,6 +334,33 @@ def check_object_all(obj, case: dict, only_variant: Optional[str] = None) -> Lis
         where = ".".join(str(p) for p in e.absolute_path if not isinstance(p, int))
         return [C.Failing(f"write:json:schema-invalid:{where.split('.')[-1] if where else 'root'}:{e.validator}",
                           f"SDK JSON for {type(obj).__name__} violates the schema at {where}: {e.message[:140]}", dict(case, dir="write"))]
+    # (round 8) the file-level writer into a text stream the CALLER opened, in the encodings platforms hand out by default: the
+    # write succeeds, and the file it leaves is the same JSON document for every consumer that follows the interchange rule
+    # (RFC 8259: UTF-8) - in particular for the SDK's own reader given the path
+    if case.get("index", 0) % 3 == 0:
+        from basyx.aas.adapter.json import write_aas_json_file
+        import tempfile, shutil
+        d_ = tempfile.mkdtemp(prefix="verif-c05-")
+        try:
+            for enc_ in ("ascii", "cp1252", "utf-8"):
+                p_ = os.path.join(d_, enc_ + ".json")
+                try:
+                    with open(p_, "w", encoding=enc_) as f_:
+                        write_aas_json_file(f_, store)
+                except Exception as e:
+                    return [C.Failing(f"write:json:text-stream:{enc_}:raises:{type(e).__name__}", f"write_aas_json_file into a text stream opened with "
+                                      f"encoding={enc_!r} raised {e!r}"[:240], dict(case, dir="write"))]
+                try:
+                    raw_doc = json.loads(open(p_, "rb").read().decode("utf-8"))
+                    back = list(read_aas_json_file(p_, failsafe=False))
+                except Exception as e:
+                    return [C.Failing(f"write:json:text-stream:{enc_}:not-utf8-json:{type(e).__name__}", f"the file write_aas_json_file left through a text "
+                                      f"stream opened with encoding={enc_!r} is not a UTF-8 JSON document any more: {e!r}"[:240], dict(case, dir="write"))]
+                if raw_doc.get(key) != sdk_doc[key] or len(back) != 1 or canon.diff(canon.canon(obj), canon.canon(back[0])):
+                    return [C.Failing(f"write:json:text-stream:{enc_}:other-document", f"the file written through a text stream (encoding={enc_!r}) holds "
+                                      "another document than the encoder produces", dict(case, dir="write"))]
+        finally:
+            shutil.rmtree(d_, ignore_errors=True)
     buf = io.BytesIO()
     write_aas_xml_file(buf, store)
     xml_doc = etree.fromstring(buf.getvalue())
